@@ -204,6 +204,8 @@ def run_trip(case):
 def _run_trip(case, d):
     name = case["name"]
     paths = {r: os.path.join(d, r.lower() + '.bin') for r in ("RI", "RO", "PI", "PO")}
+    if case.get("unwritable"):
+        paths["PI"] = os.path.join(d, 'no-such-dir', 'pi.bin')
     roles = {p: r for r, p in paths.items()}
 
     def role_of(p):
@@ -220,6 +222,7 @@ def _run_trip(case, d):
     recorder = TapeRecorder(cassette)
     recorder.enable_recording()
     bodies = []
+    in_errors = []
 
     @recorder.static_intercept_input('fetch', capture_args=[], data_handler=ih)
     def s_fetch(*a, **k):
@@ -244,7 +247,11 @@ def _run_trip(case, d):
 
         @recorder.operation()
         def execute(self, in_call, out_call, out_path, out_spec):
-            got = in_call(self)
+            try:
+                got = in_call(self)
+            except Exception as ex:
+                in_errors.append(exc_name(ex))
+                raise
             write_file(out_path, out_spec)
             out_call(self)
             return role_of(got) if got != 'body' else 'body'
@@ -291,7 +298,12 @@ def _run_trip(case, d):
     os.remove(paths["RI"])
     if os.path.exists(paths["RO"]):
         os.remove(paths["RO"])
+    # the state of the file system the replay starts from is part of the case
+    for r, spec in sorted((case.get("pre") or {}).items()):
+        if spec is not None and not (r == "PI" and case.get("unwritable")):
+            write_file(paths[r], spec)
     del bodies[:]
+    del in_errors[:]
     box = []
     with Journal(roles) as j:
         try:
@@ -310,6 +322,7 @@ def _run_trip(case, d):
     out["opened_play"] = j.reads()
     out["bodies_play"] = list(bodies)
     out["play_ret"] = box[0] if box else None
+    out["play_exc"] = in_errors[0] if in_errors else None
     out["written"] = [[r, filespec.show_bytes(read_file(paths[r]))] for r in ("RI", "PI") if os.path.exists(paths[r])]
 
     def holder(outputs):
@@ -335,8 +348,76 @@ def _run_trip(case, d):
     return out
 
 
+def run_seq(case):
+    d = scratch(case.get("dir") == "unicode")
+    try:
+        return _run_seq(case, d)
+    finally:
+        shutil.rmtree(d, ignore_errors=True)
+        fake_s3.reset()
+
+
+def _run_seq(case, d):
+    """Several recordings (one input file each) made with one recorder on one cassette, then replayed one after
+    another with the same call - hence into the same path; observed: the bytes at that path after every replay."""
+    name = case["name"]
+    side = case["in"]
+    ri, pi = os.path.join(d, 'ri.bin'), os.path.join(d, 'pi.bin')
+    lim = case["limit"]
+    with EnvVar(lim.get("env")):
+        ih = InputInterceptionFileDataHandler(side["index"], name, explicit_limit(lim))
+    cassette = make_cassette(case["cassette"], d)
+    saved = []
+    real_save = cassette.save_recording
+    cassette.save_recording = lambda recording: (saved.append(recording.id), real_save(recording))[1]
+    recorder = TapeRecorder(cassette)
+    recorder.enable_recording()
+
+    @recorder.static_intercept_input('fetch', capture_args=[], data_handler=ih)
+    def s_fetch(*a, **k):
+        return 'body'
+
+    class Op(object):
+        @recorder.intercept_input('fetch', capture_args=[], data_handler=ih)
+        def i_fetch(self, *a, **k):
+            return 'body'
+
+        @recorder.operation()
+        def execute(self, in_call):
+            return in_call(self)
+
+    def caller(mode, path):
+        extras = [filespec.real_value(a) for a in side["extras"]]
+        args, kwargs = filespec.call_args(extras, mode, path, name)
+        if side["static"]:
+            return lambda op: s_fetch(*args, **kwargs)
+        return lambda op: op.i_fetch(*args, **kwargs)
+
+    ids = []
+    for spec in case["contents"]:
+        write_file(ri, spec)
+        n = len(saved)
+        Op().execute(caller(side["rec"], ri))
+        os.remove(ri)
+        if len(saved) != n + 1:
+            return {"status": "recording-%d-not-saved" % len(ids)}
+        ids.append(saved[-1])
+    if case.get("pre") is not None:
+        write_file(pi, case["pre"])
+    steps, rets = [], []
+    for i in case["order"]:
+        box = []
+        try:
+            recorder.play(ids[i], lambda r: box.append(Op().execute(caller(side["play"], pi))))
+        except Exception as ex:
+            box.append("raises:" + exc_name(ex))
+        rets.append("PI" if box and box[0] == pi else (str(box[0]) if box else None))
+        steps.append(filespec.show_bytes(read_file(pi)))
+    return {"status": "ok", "steps": steps, "rets": rets}
+
+
 def run_c20(case):
-    return {"b64": run_b64, "above": run_above, "path": run_path, "trip": run_trip}[case["kind"]](case)
+    return {"b64": run_b64, "above": run_above, "path": run_path, "trip": run_trip, "seq": run_seq}[case["kind"]](case)
 
 
 if __name__ == '__main__':
